@@ -25,6 +25,7 @@ type MsgOpts struct {
 	Plain       bool // no folds, CRLF only, no odd whitespace (for readable minimal cases)
 	ForceMethod string
 	NoExtras    bool // only the fingerprinted / mandatory headers
+	ValidStatus bool // replies use status codes 100..699 only
 }
 
 type hdrKind struct {
@@ -62,7 +63,7 @@ func (g *G) valueFor(kind string, o *MsgOpts) string {
 	case "max-forwards":
 		return strconv.Itoa(g.R.Intn(256))
 	case "contact":
-		return g.NameAddrList(4)
+		return g.NameAddrList(4, true)
 	case "expires":
 		if o.WildNumbers && g.R.Chance(1, 2) {
 			return g.Digits()
@@ -71,9 +72,9 @@ func (g *G) valueFor(kind string, o *MsgOpts) string {
 	case "user-agent":
 		return g.Generic()
 	case "record-route", "route":
-		return g.NameAddrList(3)
+		return g.NameAddrList(3, false)
 	case "p-asserted-identity":
-		v := g.NameAddrList(3)
+		v := g.NameAddrList(3, false)
 		return v
 	}
 	return g.Generic()
@@ -141,6 +142,9 @@ func (g *G) Msg(o MsgOpts) MsgSpec {
 		m.FLine = method + " " + g.URI(false) + " " + g.R.Pick([]string{"SIP/2.0", "SIP/2.0", "sip/2.0", "SIP/3.0"})
 	} else {
 		code := g.R.Intn(1000)
+		if o.ValidStatus {
+			code = g.R.Range(100, 699)
+		}
 		reason := ""
 		switch g.R.Intn(4) {
 		case 0:
